@@ -232,18 +232,59 @@ def wrap (c : WrapCfg) (cmd : Str) : Str :=
     sExec ++ [' '] ++ sDashDash ++ [' '] ++ cmd
   else cmd
 
-/-- the same as a list of words: what the property says the prefix is -/
-def wrapWords (c : WrapCfg) : List Str :=
-  [sSudo] ++
-  (if c.envKeys ≠ [] then [sPreserve ++ joinWith [','] c.envKeys] else []) ++
-  [c.denoise] ++
+/-- the capability flags of the wrapper -/
+def flagWords (c : WrapCfg) : List Str :=
   (if c.useNice then [] else [sWithoutNice]) ++
   (if !c.useShielding then [sWithoutShielding]
    else match c.cset with
      | some p => [sCsetPath, p]
      | none => []) ++
-  (if c.profiling then [sForProfiling] else []) ++
+  (if c.profiling then [sForProfiling] else [])
+
+/-- the same as a list of words: what the property says the prefix is -/
+def wrapWords (c : WrapCfg) : List Str :=
+  [sSudo] ++
+  (if c.envKeys ≠ [] then [sPreserve ++ joinWith [','] c.envKeys] else []) ++
+  [c.denoise] ++ flagWords c ++
   [sNumCores, c.numCores, sExec, sDashDash]
+
+/-! ### the exec side: `denoise.py … exec -- cmd` (`denoise.py:297-316,352-391`) -/
+
+/-- what `denoise.py`'s argument parser makes of the flag words -/
+structure Flags where
+  useNice : Bool := true
+  useShielding : Bool := true
+  csetPath : Option Str := none
+  profiling : Bool := false
+deriving DecidableEq, Repr
+
+def parseFlags : List Str → Flags → Flags
+  | [], f => f
+  | [w], f =>
+    if w = sWithoutNice then { f with useNice := false }
+    else if w = sWithoutShielding then { f with useShielding := false }
+    else if w = sForProfiling then { f with profiling := true }
+    else f
+  | w :: p :: rest, f =>
+    if w = sCsetPath then parseFlags rest { f with csetPath := some p }
+    else if w = sWithoutNice then parseFlags (p :: rest) { f with useNice := false }
+    else if w = sWithoutShielding then parseFlags (p :: rest) { f with useShielding := false }
+    else if w = sForProfiling then parseFlags (p :: rest) { f with profiling := true }
+    else parseFlags (p :: rest) f
+
+def sShield : Str := ['s', 'h', 'i', 'e', 'l', 'd']
+def sDashExec : Str := ['-', '-', 'e', 'x', 'e', 'c']
+def sNice : Str := ['n', 'i', 'c', 'e']
+def sNiceArg : Str := ['-', 'n', '-', '2', '0']
+
+/-- `_exec`: the argv handed to `execvpe`; `lookup` is the `cset` found on the machine when no
+`--cset-path` was given -/
+def execArgv (f : Flags) (lookup : Option Str) (cmd : List Str) : List Str :=
+  let cset := match f.csetPath with | some p => some p | none => lookup
+  (match f.useShielding, cset with
+   | true, some p => [p, sShield, sDashExec, sDashDash]
+   | _, _ => []) ++
+  (if f.useNice then [sNice, sNiceArg] else []) ++ cmd
 
 /-! ## 4. the shield's core range -/
 
@@ -257,6 +298,14 @@ def shieldLo (n : Nat) : Nat :=
 
 /-- `_shield_upper_bound n = n - 1` -/
 def shieldHi (n : Nat) : Nat := n - 1
+
+/-- `REBENCH_DENOISE_CORE_SET` in the environment of the benchmark: the shielded range -/
+def execCoreSet (f : Flags) (lookup : Option Str) (n : Nat) : Option (Nat × Nat) :=
+  let cset := match f.csetPath with | some p => some p | none => lookup
+  match f.useShielding, cset with
+  | true, some _ => some (shieldLo n, shieldHi n)
+  | _, _ => none
+
 
 /-! ## 5. `denoise.py` itself: which settings `minimize` touches and what `restore` undoes
 
